@@ -50,6 +50,11 @@ IMPORTS = {"a": "values:\n  x: {y: 1}\n", "b": "imports: [a]\nvalues:\n  x: 5\n"
            "selfish": "imports: [selfish, root]\nvalues: {z: ${z}}\n"}
 
 
+def repr_yaml(t):
+    """a YAML single-quoted scalar"""
+    return "'" + t.replace("'", "''") + "'"
+
+
 def mutate(rng, b):
     b = bytearray(b)
     for _ in range(1 + rng.below(4)):
@@ -116,6 +121,17 @@ def gen(rng, tier):
     for i in range(3000 if thorough else 350):
         r = rng.fork("m%d" % i)
         cases.append({"kind": "raw", "text": mutate(r, r.choice(seeds)).hex()})
+    # interpolation / property-path parser: random strings over its alphabet, as values and as object keys
+    alpha = ["${", "}", "]", "[", ".", "\"", "\\", "a", "b", "0", "1", "-", " ", "$", "$$", "x.y", "[0]", "[\"k\"]"]
+    for i in range(6000 if thorough else 700):
+        r = rng.fork("i%d" % i)
+        t = "".join(r.choice(alpha) for _ in range(1 + r.below(9)))
+        if r.chance(1, 2):
+            t = "${" + t
+        doc = "values:\n  a: {x: [1, 2], y: {k: v}}\n  b: " + repr_yaml(t) + "\n"
+        if r.chance(1, 6):
+            doc += "  c: {fn::join: [\",\", [" + repr_yaml(t) + "]]}\n"
+        cases.append({"kind": "raw", "text": doc.encode().hex()})
     return cases
 
 
@@ -138,6 +154,8 @@ def line(c, o):
         for op in OPS:
             v = o.get(op)
             items.append("panic" if v == "panic" else "crash" if v == "hang" else "(obs none f ())")
+            if v == "hang":
+                break
         return "(raw (%s))" % " ".join(items)
     return "(c07 %s)" % G.w_case(c, o)
 
